@@ -3,12 +3,13 @@ from __future__ import annotations
 
 import copy
 import itertools
+import json
 import random
 from collections import Counter
 from fractions import Fraction
 from typing import Any, Dict, Iterable, List, Optional
 
-from harness.core import OUTSIDE, Case, Check, Finding, call, canon
+from harness.core import OUTSIDE, Case, Check, Finding, call, canon, short
 
 
 def _real():
@@ -28,7 +29,44 @@ def _text(ms):
     return 'x' * (m - s) + ' ' * s if s == 0 or m == s else ('x' * (m - s - 1) + ' ' * s + 'x')
 
 
+# While a case is run, the objects built from its JSON are kept here (key: kind, JSON, id): the case is evaluated
+# several times in a row (see C19.impl) and every evaluation gets the SAME line / region / document objects — the
+# measured functions are called on USED objects, after they were called with other arguments.
+_MEMO: Optional[Dict[Any, Any]] = None
+
+
+def _memo(kind, j, oid, build):
+    if _MEMO is None:
+        return build()
+    key = (kind, json.dumps(j, sort_keys=True), oid)
+    if key not in _MEMO:
+        _MEMO[key] = build()
+    return _MEMO[key]
+
+
+def _snap_obj(o) -> Any:
+    """deep snapshot of a line / region (id, points, baseline, text, children): the measured functions must not
+    change the objects they measure"""
+    if isinstance(o, (tuple, list)):
+        return [_snap_obj(x) for x in o]
+    if not hasattr(o, 'coords'):
+        return None
+    out = [type(o).__name__, o.id, list(o.coords.points) if o.coords is not None else None]
+    if hasattr(o, 'baseline'):
+        out.append(list(o.baseline.points) if o.baseline is not None else None)
+    if hasattr(o, 'text'):
+        out.append(o.text)
+    for attr in ('lines', 'text_regions', 'columns'):
+        if hasattr(o, attr):
+            out.append([_snap_obj(x) for x in getattr(o, attr)])
+    return out
+
+
 def mk_line(j, lid='l'):
+    return _memo('line', j, lid, lambda: _mk_line(j, lid))
+
+
+def _mk_line(j, lid='l'):
     pdm, _ = _real()
     baseline = None if j['baseline'] is None else pdm.Baseline([tuple(p) for p in j['baseline']])
     return pdm.PageXMLTextLine(doc_id=lid, coords=pdm.Coords([tuple(p) for p in j['coords']]),
@@ -36,6 +74,10 @@ def mk_line(j, lid='l'):
 
 
 def mk_region(j, rid='r'):
+    return _memo('region', j, rid, lambda: _mk_region(j, rid))
+
+
+def _mk_region(j, rid='r'):
     pdm, _ = _real()
     lines = [mk_line(l, f'{rid}-l{i}') for i, l in enumerate(j['lines'])]
     subs = [mk_region(s, f'{rid}-r{i}') for i, s in enumerate(j.get('subs', []))]
@@ -253,7 +295,12 @@ class C19(Check):
         'int(total_avg / total_width) on doubles equals exact truncation (true for |coordinates| < 2^20 and < 2^10 '
         'points: the sum of half-integers is exact below 2^53 and a non-integral N/(2W) is >= 1/(2W) away from every '
         'integer, far more than half an ulp; every real value is compared with an exact Fraction computation); '
-        'sorted(lines) / sorted(regions) return a permutation (the model is handed the order the real sort produced).'
+        'sorted(lines) / sorted(regions) return a permutation (the model is handed the order the real sort produced). '
+        'Histories (wave 4): every case is evaluated on USED objects — for the kinds with an interpolation step all '
+        'functions are first called with another step on the same line / point objects, then comes the observed '
+        'evaluation (judged and compared as before), then the same evaluation again on the same objects (lines, '
+        'regions, documents are built once per case); the second answers must repeat the first and a deep snapshot '
+        'of the objects (ids, points, baselines, texts, children) must be unchanged.'
         ' The step with which the line-distance functions reach compute_baseline_distances / '
         'compute_bounding_box_distances (their default, 50), the narrow-line step 5 of get_text_heights, the thresholds '
         'of the is_*_overlapping calls and the divisor of in_same_column are REGENERATED from the source on every run '
@@ -732,6 +779,10 @@ class C19(Check):
     @staticmethod
     def _build_docs(docs):
         """real documents plus the JSON handed to the model (with the orders the real sorted() gives)"""
+        return _memo('docs', docs, None, lambda: C19._build_docs_fresh(docs))
+
+    @staticmethod
+    def _build_docs_fresh(docs):
         pdm, ls = _real()
         real, mj = [], []
         counter = itertools.count()
@@ -802,6 +853,36 @@ class C19(Check):
         return sorted(evs)
 
     def impl(self, case: Case) -> Any:
+        """the case evaluated on USED objects: (0) for the kinds with an interpolation step, every function is first
+        called with ANOTHER step on the same objects (unobserved); (1) the observed evaluation — judged by the oracle
+        and compared with the model as before; (2) the same evaluation a second time on the same objects.  (2) must
+        repeat (1) and the objects must be unchanged; only if not, the outcome carries a `_hist` entry."""
+        global _MEMO
+        _MEMO = {}
+        try:
+            i = case.input
+            if isinstance(i, dict) and isinstance(i.get('step'), int) and case.kind != 'mdt':
+                other = 10 if i['step'] != 10 else 50
+                try:
+                    self._impl_once(Case(case.kind, dict(i, step=other), case.tags))
+                except Exception:       # noqa — unobserved warm-up call
+                    pass
+            first = self._impl_once(case)
+            snap = {key: _snap_obj(o) for key, o in _MEMO.items()}
+            second = self._impl_once(case)
+            hist = {}
+            if json.dumps(canon(second), sort_keys=True) != json.dumps(canon(first), sort_keys=True):
+                hist['second'] = second
+            changed = [f'{key[0]} {key[2]}' for key, o in _MEMO.items() if key in snap and _snap_obj(o) != snap[key]]
+            if changed:
+                hist['mutated'] = changed
+            if hist and isinstance(first, dict):
+                first = dict(first, _hist=hist)
+            return first
+        finally:
+            _MEMO = None
+
+    def _impl_once(self, case: Case) -> Any:
         pdm, ls = _real()
         i = case.input
         k = case.kind
@@ -995,6 +1076,20 @@ class C19(Check):
 
         def bad(key, what):
             fs.append(Finding(f'C19:{key}', what, case, out))
+
+        # histories: the same measurement taken a second time on the same objects (after calls with another step)
+        # must repeat the first, and the measured objects must be unchanged
+        h = out.get('_hist') if isinstance(out, dict) else None
+        if h:
+            if 'second' in h:
+                first = {a: b for a, b in out.items() if a != '_hist'}
+                sec = h['second']
+                names = [a for a in first if not isinstance(sec, dict) or sec.get(a) != first[a]]
+                bad(f'not-repeatable:{k}', f'measured a second time on the same objects: {names} differ: '
+                                           f'{short({a: first[a] for a in names}, 300)} -> '
+                                           f'{short({a: (sec.get(a) if isinstance(sec, dict) else sec) for a in names}, 300)}')
+            if 'mutated' in h:
+                bad(f'input-mutated:{k}', f'the measured objects were changed by measuring them: {h["mutated"]}')
 
         def grid(points, step, items, key):
             """interpolated points lie on multiples of the step inside the x-range, y between neighbours"""
